@@ -405,7 +405,7 @@ def rule_facade(ctx: Ctx):
         rep.check(bool(created), "C05.facade", rs.loc(), "a fresh loop is created for a thread that has none", rs.key, "no new_event_loop()")
 
 
-def rule_start(ctx: Ctx):
+def rule_start(ctx: Ctx, rule: str = "C05.start"):
     rep, k = ctx.rep, ctx.k
     init = ctx.fn("StateMachine.__init__")
     n = 0
@@ -419,14 +419,14 @@ def rule_start(ctx: Ctx):
                   and xshow(e.term.func.value, evs).startswith("self._engine")]
         reg = [e for e in p.calls() if k.calls_method(e, "_register_callbacks")]
         ok = len(eng_store) == 1 and len(starts) == 1 and eng_store[0].idx < starts[0].idx and reg and reg[0].idx < eng_store[0].idx
-        rep.check(ok, "C05.start", init.loc(), "the constructor registers callbacks, then builds the engine, then starts it (initial activation "
+        rep.check(ok, rule, init.loc(), "the constructor registers callbacks, then builds the engine, then starts it (initial activation "
                   "is queued before any event can be sent)", init.key,
                   "constructor order: " + " ; ".join(e.show() for e in evs if e in eng_store or e in starts or e in reg))
         if eng_store:
             v = xshow(eng_store[0].x["value"], evs)
-            rep.check(v.startswith("self._get_engine("), "C05.start", eng_store[0].loc(), "the engine comes from _get_engine (chosen by has_async_callbacks)",
+            rep.check(v.startswith("self._get_engine("), rule, eng_store[0].loc(), "the engine comes from _get_engine (chosen by has_async_callbacks)",
                       init.key, norm_stmt(eng_store[0].node))
-    rep.floor("C05.start", "normal paths of StateMachine.__init__", n, 1)
+    rep.floor(rule, "normal paths of StateMachine.__init__", n, 1)
     st = ctx.fn("BaseEngine.start")
     n_put = 0
     for p in ctx.paths(st, exc_edges="none"):
@@ -435,15 +435,15 @@ def rule_start(ctx: Ctx):
             n_put += 1
             arg = expand(puts[0].term.args[0], p.events)
             ok = isinstance(arg, ast.Call) and show(arg.func) == "TriggerData" and "__initial__" in show(arg)
-            rep.check(ok, "C05.start", st.loc(), "start() enqueues the `__initial__` trigger (FIFO puts it before the first event)", st.key,
+            rep.check(ok, rule, st.loc(), "start() enqueues the `__initial__` trigger (FIFO puts it before the first event)", st.key,
                       f"put({show(arg)})")
-    rep.floor("C05.start", "enqueuing paths of BaseEngine.start", n_put, 1)
+    rep.floor(rule, "enqueuing paths of BaseEngine.start", n_put, 1)
     for eng in k.engines:
         s = k.engine_fn(eng, "start")
         if s.cls is not k.base:
             for p in ctx.paths(s, inline=None, exc_edges="none"):
                 sup = [e for e in p.calls() if "super" in show(e.term.func) and show(e.term.func).endswith(".start")]
-                rep.check(bool(sup), "C05.start", s.loc(), f"{eng.name}.start() still performs the base start (enqueue) first", s.key,
+                rep.check(bool(sup), rule, s.loc(), f"{eng.name}.start() still performs the base start (enqueue) first", s.key,
                           "; ".join(e.show() for e in p.calls()))
 
 
